@@ -428,7 +428,7 @@ def pristine_references(seed):
 def run(tier, seed):
     MEMO.update(pristine_references(seed))
     nref = len(MEMO)
-    acc = parallel(worker, tier, seed, nshards=64)
+    acc = parallel(worker, tier, seed, nshards=16)
     acc.n["pristine_references"] = nref
     cov = {
         "states": acc.n["pooled_schemas_checked"],
